@@ -1699,6 +1699,9 @@ class Action:
     action.
     """
 
+    # set on the actions of a foreach "do" block: they run for the byte being read, not after it
+    runs_for_each_character = False
+
     def get_mode(self) -> ActionMode:
         return ActionMode.EACH_CHARACTER
 
@@ -4082,6 +4085,9 @@ class TryExceptNode(ActionSinkNode, ActionSourceNode):
 class ForeachNode(ActionSinkNode, ActionSourceNode):
     def __init__(self, child_node: Node, each_actions: List[Action]):
         self.each_actions = each_actions
+        for action in each_actions:
+            for subaction in action.all_subactions():
+                subaction.runs_for_each_character = True
         self.child_node = child_node
         self.after_actions: List[Action] = []
         self.incoming_body_actions: List[Action] = []
@@ -5675,6 +5681,12 @@ class CodegenCtx:
             with result as body:
                 body.add(f"state->state = {self.dfa.states.index(action.end_target)};")
                 if transition is not None:
+                    if isinstance(action, AppendCharTo) and not action.runs_for_each_character and not transition.is_fallthrough and not is_end:
+                        # the byte this transition matched was not the one being stored: it stays consumed
+                        advanced = self._transition_advances_early(transition, is_end)
+                        start_expr = "(*start)" if ProgramData.do(ProgramFlag.INDIRECT_START_PTR) else "start"
+                        body.add(f"if ({'' if advanced else '++'}{start_expr} == end) return {self.program_name.upper()}_OK;")
+                        body.add(f"inval = *{start_expr};")
                     body.add(f"goto repeatswitch;") # Fallthrough via switch
                 else:
                     body.add(f"return {self.program_name.upper()}_OK;") # end processing instructions
@@ -5872,6 +5884,19 @@ class CodegenCtx:
     def _transition_skip_action_label(self, transition: DFTransition):
         return f"skipaction_{id(transition)}"
 
+    def _transition_is_immediately_done(self, transition: DFTransition, from_end=False):
+        if from_end and not transition.is_fallthrough and transition.target in self.dfa.accepting_states:
+            # end-of-input was consumed into the accepting state: there is no later call that could report DONE
+            return True
+        return transition.target in self.dfa.accepting_states and not ProgramData.do(ProgramFlag.STRICT_DONE_TOKEN_GENERATION) and all(x.error_handling for x in transition.target.transitions)
+
+    def _transition_advances_early(self, transition: DFTransition, from_end=False):
+        """
+        Is the input pointer advanced before the actions of this transition run (because one of them may return)?
+        """
+        return any(x.may_return_early() for x in transition.actions) and not from_end and not transition.is_fallthrough \
+                and not self._transition_is_immediately_done(transition, from_end)
+
     def _generate_transition_body(self, transition: DFTransition, from_end=False):
         transition_body = Outputter()
         # Set the next state
@@ -5881,11 +5906,8 @@ class CodegenCtx:
             transition_body.add("// terminating state")
         target_overriden = False
         needs_early_advance = any(x.may_return_early() for x in transition.actions)
-        immediate_done = transition.target in self.dfa.accepting_states and not ProgramData.do(ProgramFlag.STRICT_DONE_TOKEN_GENERATION) and all(x.error_handling for x in transition.target.transitions)
-        if from_end and not transition.is_fallthrough and transition.target in self.dfa.accepting_states:
-            # end-of-input was consumed into the accepting state: there is no later call that could report DONE
-            immediate_done = True
-        if needs_early_advance and not from_end and not transition.is_fallthrough and not immediate_done:
+        immediate_done = self._transition_is_immediately_done(transition, from_end)
+        if self._transition_advances_early(transition, from_end):
             if ProgramData.do(ProgramFlag.INDIRECT_START_PTR):
                 transition_body.add(f"++(*start);");
             else:
